@@ -136,6 +136,10 @@ func (c *collection) deleteIndexedDocWithID(
 	if err != nil {
 		return err
 	}
+	if doc == nil {
+		// There is no such document (any more), so nothing is indexed for it.
+		return nil
+	}
 	return c.deleteIndexedDoc(ctx, doc)
 }
 
